@@ -85,31 +85,55 @@ def r1_decision_table(ctx):
     cfg = cfg_of(b)
     if cfg.natural_loops():
         return [violated("C15.R1", "may_follow_link:loop-free", b.where(), "may_follow_link contains a loop; decision-table extraction needs a loop-free body")]
-    # map every bool switch to an atom
+    # map every bool switch to an atom: the discriminant is (the negation of) a comparison, possibly held
+    # in a named bool and defined in an earlier block
     sw_atom = {}
     unknown = []
+
+    def atom_of(bb, idx, op, depth=0):
+        """-> (atom, value-of-switch-operand == atom-holds ?) or None"""
+        if depth > 4 or op.place is None:
+            return None
+        for o in ctx.tracer.origins_of_operand(b, bb, idx, op):
+            if o.kind != "expr" or o.stmt is None:
+                return None
+            s = o.stmt
+            pos = None
+            for blk2 in b.blocks:
+                for i2, s2 in enumerate(blk2.stmts):
+                    if s2 is s:
+                        pos = (blk2.idx, i2)
+            if pos is None:
+                return None
+            if s.rv["k"] == "bin" and s.rv["op"] in ("Eq", "Ne"):
+                ops = s.rv_operands()
+                key = tuple(sorted(_canon_operand(ctx, b, pos[0], pos[1], x) for x in ops))
+                a = ATOMS.get(key)
+                if a is None:
+                    unknown.append((bb, key))
+                    return None
+                return (a, s.rv["op"] == "Eq")
+            if s.rv["k"] == "un" and s.rv["op"] == "Not":
+                r = atom_of(pos[0], pos[1], s.rv_operands()[0], depth + 1)
+                if r is None:
+                    return None
+                return (r[0], not r[1])
+            return None
+        return None
+
     for blk in b.blocks:
         if blk.cleanup or blk.idx in cfg.dead or blk.term.kind != "switch":
             continue
         t = blk.term
-        d = Operand(t.raw["d"])
         if t.raw["dty"] != "bool":
             continue
-        cmp = None
-        for i, s in enumerate(blk.stmts):
-            if s.kind == "assign" and s.lhs.is_local and d.place is not None and s.lhs.local == d.place.local and s.rv["k"] == "bin" and s.rv["op"] in ("Eq", "Ne"):
-                cmp = (i, s)
-        if cmp is None:
-            unknown.append(blk.idx)
+        d = Operand(t.raw["d"])
+        r = atom_of(blk.idx, len(blk.stmts), d)
+        if r is None:
+            if not any(u[0] == blk.idx for u in unknown if isinstance(u, tuple)):
+                unknown.append(blk.idx)
             continue
-        i, s = cmp
-        ops = s.rv_operands()
-        key = tuple(sorted(_canon_operand(ctx, b, blk.idx, i, o) for o in ops))
-        atom = ATOMS.get(key)
-        if atom is None:
-            unknown.append((blk.idx, key))
-            continue
-        sw_atom[blk.idx] = (atom, s.rv["op"] == "Eq")
+        sw_atom[blk.idx] = r
     if unknown:
         out.append(violated("C15.R1", "may_follow_link:atoms", b.where(), "branch conditions that are not one of the four kernel comparisons: %s" % unknown))
         return out
